@@ -8,9 +8,15 @@ head = subprocess.check_output(['git','-C','/verif','rev-parse','--short','HEAD'
 for i in ids:
     mp = f'/verif/seeded/{i}/meta.json'; m = json.load(open(mp)); prop = m['property']
     env = dict(os.environ, CONTRACTS=os.environ.get('CONTRACTS','/verif/contracts,/repo'))
+    if os.environ.get('RESCORE_FAST'):
+        # modular verification: a change of function f can only fail obligations of units in f's package (and of units that
+        # inline f): solve the property's units (+ dependency closure) of the patched packages only
+        d = open(f'/verif/seeded/{i}/patch.diff').read()
+        pk = sorted({os.path.dirname(x) for x in re.findall(r'^\+\+\+ b/(\S+)', d, re.M)})
+        env['PKG'] = ','.join(pk)
     t0=time.time()
     o = subprocess.run(f'tools/try_seed_ov.sh seeded/{i}/patch.diff {prop}', shell=True, cwd='/verif', env=env, stdout=subprocess.PIPE, stderr=subprocess.STDOUT, text=True).stdout
     ex = re.findall(r'exit=(\d+)', o); failed = sorted(set(re.findall(r'FAILED (\S+)', o)))
-    m['check_result_current'] = {'command': f'tools/try_seed_ov.sh seeded/{i}/patch.diff {prop}', 'verif_commit': head, 'contracts': env['CONTRACTS'], 'exit': int(ex[-1]) if ex else None, 'failed_obligations': failed[:12], 'summary': [l for l in o.splitlines() if l.startswith('property=')][-1:], 'verdict': 'caught' if ex and ex[-1]=='1' else ('MISSED' if ex and ex[-1]=='0' else 'undecided')}
+    m['check_result_current'] = {'command': f'tools/try_seed_ov.sh seeded/{i}/patch.diff {prop}', 'verif_commit': head, 'contracts': env['CONTRACTS'], 'restricted_to_packages': env.get('PKG',''), 'exit': int(ex[-1]) if ex else None, 'failed_obligations': failed[:12], 'summary': [l for l in o.splitlines() if l.startswith('property=')][-1:], 'verdict': 'caught' if ex and ex[-1]=='1' else ('MISSED' if ex and ex[-1]=='0' else 'undecided')}
     json.dump(m, open(mp,'w'), indent=1)
     print(i, prop, m['check_result_current']['verdict'], failed[:3], f'{time.time()-t0:.0f}s', flush=True)
